@@ -894,8 +894,6 @@ def region(prog, root, within=None, depth=4):
         if d >= depth:
             continue
         for ev in f.events("call"):
-            if ev.get("inlined"):
-                continue
             for g in prog.resolve_call(ev):
                 if g.blocks and g.id not in seen and (within is None or within(g)):
                     work.append((g, d + 1))
@@ -1022,7 +1020,8 @@ def result_edges(f, callee, truth):
         norm_ = lambda x: re.sub(r"\s+", "", x or "")
         direct = any(r.startswith("c:") and is_c(r[2:]) for r in leaf) and (
             not [r for r in leaf if r.startswith("c:") and not is_c(r[2:]) and "operator" not in r] or
-            any(x["k"] == "call" and is_c(x.get("callee") or "") and norm_(x.get("t")) == norm_(core.get("t")) for x in b.elems))
+            any(x["k"] == "call" and is_c(x.get("callee") or "") and norm_(x.get("t")) == norm_(core.get("t"))
+                for x in list(b.elems) + [y for y in f.events("call") if y.get("inlined")]))
         via = core.get("v") in rv and core.get("v") is not None
         if not (direct or via):
             continue
@@ -1054,6 +1053,17 @@ def value_edges(f, callee, const, rels=("==",)):
     return out
 
 
+def init_calls(fn, d):
+    """the call events that compute the initialiser of declaration d: calls earlier in d's block, and (when the body of a helper or
+    of a lambda handed to the call was expanded in between, so that the call ended up in an earlier block) the expanded call
+    whose text is the initialiser"""
+    it_ = re.sub(r"\s+", "", (d.get("init") or {}).get("t") or "")
+    blk = fn.blocks[d.block]
+    out = [c for c in blk.elems[:d.idx] if c["k"] == "call"]
+    out += [c for c in fn.events("call") if c.get("inlined") and it_ and re.sub(r"\s+", "", c.get("t") or "") == it_ and not any(c is x for x in out)]
+    return out
+
+
 def derived_vars(fn, seeds, prog=None):
     """locals whose value is computed from the seed locals: initialised from an expression that mentions one, assigned one, or
     filled from one by memcpy/memmove/std::copy (destination's root variable); with prog, also initialised from a call that is
@@ -1065,7 +1075,9 @@ def derived_vars(fn, seeds, prog=None):
         if prog is None:
             return False
         blk = fn.blocks[d.block]
-        for c in blk.elems[:d.idx]:
+        it_ = ((d.get("init") or {}).get("t") or "").strip()
+        # the initialising call: earlier in the block, or (the lambda's body expanded in between) the call with the initialiser's text
+        for c in list(blk.elems[:d.idx]) + [c_ for c_ in fn.events("call") if c_.get("inlined") and it_ and (c_.get("t") or "").strip() == it_]:
             if c["k"] == "call":
                 for a in c.get("args", []):
                     if a.get("lam"):
@@ -1258,6 +1270,9 @@ def flat_calls(prog, f, expand, depth=3, _subst=None, _stack=()):
     for e in sorted(f.events("call"), key=lambda x: (-x.block, x.idx)):
         args = [sub_arg(a) for a in e.get("args", [])]
         gs = [g for g in prog.resolve_call(e) if g.blocks and g.id not in _stack and g.id != f.id and expand(g)] if depth > 0 else []
+        if gs and e.get("inlined"):
+            # f is a flattened function (facts.Program.flat) and the body of this helper follows in f itself
+            continue
         if gs:
             g = gs[0]
             s2 = {p_["name"]: (args[i].get("t") or "") for i, p_ in enumerate(g.params) if i < len(args) and not args[i].get("lam")}
